@@ -426,12 +426,61 @@ func runC17(c *Ctx) {
 				if n > 100 {
 					sels = []int{1}
 				}
+				// the implementation's result in floats, for the oracle: panicked | hasPosition [values] hasNormal [values] #idx idx… topology #others
+				meshEnc := func(f func() modeling.Mesh) string {
+					var r modeling.Mesh
+					panicked := false
+					func() {
+						defer func() {
+							if recover() != nil {
+								panicked = true
+							}
+						}()
+						r = f()
+					}()
+					if panicked {
+						return Fs(1)
+					}
+					sb := []string{Fs(0)}
+					for _, a := range []string{modeling.PositionAttribute, modeling.NormalAttribute} {
+						if r.HasFloat3Attribute(a) {
+							sb = append(sb, Fs(1))
+							it := r.Float3Attribute(a)
+							if it.Len() != n {
+								return Fs(2) // wrong length: malformed for the oracle -> false
+							}
+							for i := 0; i < it.Len(); i++ {
+								sb = append(sb, vF(it.At(i)))
+							}
+						} else {
+							sb = append(sb, Fs(0))
+						}
+					}
+					ix := r.Indices()
+					sb = append(sb, Fs(float64(ix.Len())))
+					for i := 0; i < ix.Len(); i++ {
+						sb = append(sb, Fs(float64(ix.At(i))))
+					}
+					others := len(r.Float1Attributes()) + len(r.Float2Attributes()) + len(r.Float4Attributes())
+					sb = append(sb, Fs(float64(int(r.Topology())), float64(others)))
+					return strings.Join(sb, " ")
+				}
 				for _, sel := range sels {
 					attr := []string{modeling.PositionAttribute, modeling.NormalAttribute, "Missing"}[sel]
 					tail := " " + nS + args + nargs
-					c.Emit("c17.meshop", Fs(0, float64(sel))+" "+qF(u1)+tail, Guard(func() string { return meshOut(meshops.RotateAttribute3D(m2, attr, u1)) }))
-					c.Emit("c17.meshop", Fs(1, float64(sel))+" "+vF(tp)+tail, Guard(func() string { return meshOut(meshops.TranslateAttribute3D(m2, attr, tp)) }))
-					c.Emit("c17.meshop", Fs(2, float64(sel))+" "+vF(tp)+" "+vF(ts)+tail, Guard(func() string { return meshOut(meshops.ScaleAttribute3D(m2, attr, tp, ts)) }))
+					ops := []struct {
+						head string
+						f    func() modeling.Mesh
+					}{
+						{Fs(0, float64(sel)) + " " + qF(u1), func() modeling.Mesh { return meshops.RotateAttribute3D(m2, attr, u1) }},
+						{Fs(1, float64(sel)) + " " + vF(tp), func() modeling.Mesh { return meshops.TranslateAttribute3D(m2, attr, tp) }},
+						{Fs(2, float64(sel)) + " " + vF(tp) + " " + vF(ts), func() modeling.Mesh { return meshops.ScaleAttribute3D(m2, attr, tp, ts) }},
+					}
+					for _, o := range ops {
+						c.Emit("c17.meshop", o.head+tail, Guard(func() string { return meshOut(o.f()) }))
+						// oracle: MovesPointwise / OnlyV3Changed (Props/C17Mesh.lean) evaluated on the implementation's own result
+						c.Emit("c17.holds.meshop", o.head+tail+" "+meshEnc(o.f), "true")
+					}
 					c.Note("meshop." + attr)
 				}
 			}
